@@ -42,6 +42,8 @@ func propC02(c *Ctx, r *Report) {
 	heightWriters(c, newSharedAnalysis(c), r, "C02-R2/tx-typestate")
 	r.rule("C02-R3/tx-confinement", 3, "transaction control only in the sync root; *sql.Tx never escapes")
 	ruleTxConfinement(c, r, "C02-R3/tx-confinement")
+	// R10: atomicity against a kill rests on SQLite finding its rollback journal (or WAL) on disk at the next open
+	ruleDurableJournal(c, r, cat, "C02-R10/durable-journal")
 
 	// R7: restart equivalence of the one piece of derived state block processing keeps in memory (shared with C09)
 	windowSize(c, r, "C02-R7/restart-window")
